@@ -10,7 +10,7 @@ MODELLED = ('Trusted: Coq 8.16.1 kernel (no axioms: every theorem in coq/Props/%
 
 CHECKS = {
     'C17': dict(
-        text='Theorems over the model of the flag -> keyword translation (contradictory options <-> exit, the documented '
+        text='Theorems over the model of the flag -> keyword translation (each contradictory pair of discover / verify / detect options <-> exit 1, the documented '
              'defaults for per-constraint flags and output fields, pass-through of the rest); the model is compared with '
              'the real verify_flags/detect_flags on every flag combination (exhaustive). End to end, tdda discover / '
              'verify / detect are run as subprocesses on generated CSV and parquet files (incl. stdin) and compared with '
@@ -32,19 +32,23 @@ CHECKS = {
                   'perturbation oracle on real SQLite tables',
         design='7 C08'),
     'C09': dict(
-        text='Theorems at the dictionary level for any value type: write-load-write is idempotent, unknown kinds and # '
-             'keys never affect what is written for the other kinds, and the written form depends only on the surviving '
-             'kind->value map (the kind list and its order are regenerated from the source and pinned). The text level '
-             '(valid UTF-8 JSON, no trailing whitespace, identical text over 1-3 write/load cycles, identical verdicts via '
-             'dict / path / re-serialised text on generated data) is checked on generated hand-written and discovered '
-             'constraint sets; the extracted model predicts the keys and order of every written field.',
-        note='partial: the text of numbers, dates and strings (json.dumps/loads, str(datetime)/get_date) is exercised by '
-             'the round-trip oracle, not modelled.',
-        technique='Coq proof (dump/load key algebra) + translator-pinned kind order + round-trip oracle and '
-                  'extracted-model correspondence',
+        text='Theorems at the dictionary level for any value type (write-load-write idempotent, unknown kinds and # keys '
+             'inert, written form depends only on the surviving kind->value map; kind list regenerated from the source) and '
+             'at the level of the TEXT: Constraints/Json.v models json.dumps(indent=4, ensure_ascii=False), strip_lines and '
+             'the strict json.loads scanner, and it is proved - for every JSON value of any depth, every string over any '
+             'code points, every number token - that loads(to_json(v)) = v, that no line of the text ends in whitespace, '
+             'and that a loaded constraint set written and re-read serialises to the identical text. The model printer is '
+             'compared with to_json on every written dictionary and on random values, the model parser with json.loads on '
+             'those texts and on damaged / hand-written variants; 1-3 real write/load cycles; verdicts via dict / path / '
+             're-serialised text on generated data.',
+        note='the VALUE of a number token (int()/float()/float.__repr__) and the text of dates (str(datetime), get_date) are '
+             'CPython\'s / tdda\'s: exercised by the round-trip oracle, not modelled; known finding: date-only bounds are '
+             're-written with a time.',
+        technique='Coq proof (JSON printer/parser round trip by induction on values; dump/load key algebra) + print/parse '
+                  'correspondence with CPython json on every written text + round-trip oracle',
         design='7 C09'),
     'C06': dict(
-        text='Theorems over the model of the detection pass: a flag column exists only for a constraint that plain '
+        text='Theorems over the model of the detection pass: a flag column exists exactly for the constraints that plain '
              'verification fails; per kind the flag is false exactly on the violating records (min/max, type -> all, '
              'max_nulls -> the nulls, no_duplicates -> every member of a duplicated group; nulls flagged false only by '
              'type/null-count rules); each record count equals its number of false flags; passing + failing = rows; an '
